@@ -91,6 +91,8 @@ def send(app, req):
     env['REQUEST_METHOD'] = req.get('method', 'GET')
     if req.get('accept') is not None:
         env['HTTP_ACCEPT'] = req['accept']
+    if req.get('script_name'):
+        env['SCRIPT_NAME'] = req['script_name']        # the application mounted under a prefix
     got = {}
 
     def start_response(status, headers, exc_info=None):
@@ -148,6 +150,11 @@ def run(case):
         path = '/' + case['request']['path'].lstrip('/')
         segs = [s_ for s_ in path.split('/') if s_ != '']
         want = '/' + '/'.join(segs) + ('/' if segs else '')
+        mount = case['request'].get('script_name') or ''
+        if not loc.startswith('http://localhost' + mount + '/'):
+            problems.append('Location %r does not stay under the application root %r' % (loc, 'http://localhost' + mount + '/'))
+        if mount and u.path.startswith(mount):
+            u = u.replace(path=u.path[len(mount):])
         if url_unquote(u.path) != want:
             problems.append('Location path %r does not decode to the canonical path %r' % (u.path, want))
         q = case['request'].get('query_latin1', '')
@@ -155,7 +162,7 @@ def run(case):
             problems.append('query string changed: %r -> %r' % (q, u.query))
         # one hop: the canonical path is not redirected again
         got2 = send(app, {'path': url_unquote(u.path), 'method': case['request'].get('method', 'GET'),
-                          'query_latin1': u.query})
+                          'query_latin1': u.query, 'script_name': mount})
         if got2.get('status', '').startswith('30'):
             problems.append('following the redirect yields another redirect')
     if 'c06' in checks:
